@@ -203,22 +203,18 @@ where
     where
         F: FnMut(&K, &mut V) -> bool,
     {
-        let keys_to_remove: Vec<K> = self
-            .inner
-            .iter()
-            .filter_map(|(k, v)| {
-                // Simple test - just check if we should keep the item
-                let mut value_copy = v.clone();
-                if f(k, &mut value_copy) {
-                    None
-                } else {
-                    Some(k.clone())
-                }
-            })
-            .collect();
+        // The predicate receives the stored value itself (as std's retain does), so what it
+        // writes through `&mut V` stays in the map for the entries it keeps.
+        let keys: Vec<K> = self.inner.iter().map(|(k, _)| k.clone()).collect();
 
-        for key in keys_to_remove {
-            self.inner.remove(&key);
+        for key in keys {
+            let keep = match self.inner.get_mut(&key) {
+                Some(value) => f(&key, value),
+                None => true,
+            };
+            if !keep {
+                self.inner.remove(&key);
+            }
         }
     }
 
